@@ -30,14 +30,36 @@ def parsePdus : List String → Option (List Pdu)
 
 def nats (ws : List String) : Option (List Nat) := ws.mapM (·.toNat?)
 
+/-- CONNECT_IND parameters `adv_received` accepts (interval 24) -/
+def acceptable (lat counter hop t : Nat) : Bool :=
+  lat ≤ 499 && counter ≤ 0xffff && 5 ≤ hop && hop ≤ 16 && 10 ≤ t && t ≤ 3200
+    && decide (t * 10000 > (lat + 1) * 2 * 30000)
+
 def drvStep (st : Option LL) (ws : List String) : Option LL × String :=
   match ws with
   | "reset" :: args =>
       match nats args with
-      | some [cfg, lat, counter, hop] =>
-          if cfg > 1 ∨ lat > 499 ∨ counter > 0xffff ∨ hop < 5 ∨ hop > 16 then (st, "bad-op")
-          else let s := init (cfg == 1) lat counter hop; (some s, stateLine s)
+      | some (cfg :: lat :: counter :: hop :: rest) =>
+          let timeout := match rest with
+            | [t] => some t
+            | [] => some 3200
+            | _ => none
+          match timeout with
+          | some t =>
+              if cfg > 1 ∨ !acceptable lat counter hop t then (st, "bad-op")
+              else let s := init (cfg == 1) lat counter hop t; (some s, stateLine s)
+          | none => (st, "bad-op")
       | _ => (st, "bad-op")
+  | "connect" :: args =>
+      match st, nats args with
+      | some s, some [lat, counter, hop, t] =>
+          if s.up ∨ !acceptable lat counter hop t then (st, "bad-op")
+          else let s' := step s (.connect lat counter hop t); (some s', stateLine s')
+      | _, _ => (st, "bad-op")
+  | ["disconnect"] =>
+      match st with
+      | some s => let s' := step s .disconnect; (some s', stateLine s')
+      | none => (st, "bad-op")
   | "ev" :: args =>
       match st, parsePdus args with
       | some s, some pdus =>
